@@ -110,32 +110,89 @@ class Overlay:
         return c is not None and c.kind != "Closure" and c.vis != "pub" and bool(c.impl) and not c.impl.get("trait") \
             and c.impl["self_ty"] == self.w.overlay
 
-    def deep_sites(self, b, depth=3, _sub=None, _outer=(), _seen=()):
+    def deep_sites(self, b, depth=3, _sub=None, _outer=(), _seen=(), _anchor=None, _osets=None):
         """[(code body, site, tracer, sub, outer)] for the call sites of op `b` *and* of the private overlay helpers it calls
         (a step of the protocol extracted into `fn clear_marker(&self, path)` is still a step of the op).  `sub` maps a term
         of the body the site lies in into b's name space (helper parameters replaced by the actual arguments), `outer` are
         the guards that hold at the chain of helper call sites, already in b's name space"""
+        return [x[:5] for x in self.deep_sites_x(b, depth, _sub, _outer, _seen, _anchor, _osets)]
+
+    def deep_sites_x(self, b, depth=3, _sub=None, _outer=(), _seen=(), _anchor=None, _osets=None):
+        """deep_sites plus, per site, the *anchor* (code body, block) — the call site in the operation's own code through which
+        the site is reached (the site itself when it lies in the operation) — and a thunk giving the per-path guard sets that
+        lead to the site, in b's name space (call-chain paths x paths inside the helper)"""
         sub = _sub or (lambda t: t)
         out = []
         for cb, s, tr in self.sites(b):
-            out.append((cb, s, tr, sub, tuple(_outer)))
+            anchor = _anchor or (cb, s.bb)
+
+            def sets_fn(cb=cb, bb=s.bb, sub=sub, osets=_osets):
+                own = self.path_guard_sets(cb, bb)
+                if own is None:
+                    return None
+                own = [[(g[0], sub(g[1])) + tuple(g[2:]) for g in gs] for gs in own]
+                if osets is None:
+                    return own
+                up = osets()
+                if up is None:
+                    return None
+                res = [u + o for u in up for o in own]
+                return res if len(res) <= 600 else None
+            out.append((cb, s, tr, sub, tuple(_outer), anchor, sets_fn))
             h = self.inter.local_callee(s)
             if depth > 0 and self.is_private_helper(h) and h.id != b.id and h.id not in _seen:
                 actuals = tuple(sub(tr.operand(a)) for a in s.args)
                 ids = self.inter.callee_ids(h)
                 sub2 = (lambda ids_, act_: (lambda t: self.inter.subst(t, ids_, act_)))(ids, actuals)
                 here = tuple((g[0], sub(g[1])) + tuple(g[2:]) for g in self.guards(cb, s.bb))
-                out.extend(self.deep_sites(h, depth - 1, sub2, tuple(_outer) + here, tuple(_seen) + (b.id,)))
+                out.extend(self.deep_sites_x(h, depth - 1, sub2, tuple(_outer) + here, tuple(_seen) + (b.id,), anchor, sets_fn))
         return out
 
     def deep_path_sites(self, b, names):
         """path-method call sites `names` in op b or its private helpers: (cb, site, tracer, receiver in b's name space,
         guards at the site in b's name space including those of the helper call chain)"""
+        return [x[:5] for x in self.deep_path_sites_x(b, names)]
+
+    def deep_path_sites_x(self, b, names):
+        """deep_path_sites plus anchor and path-set thunk (see deep_sites_x)"""
         out = []
-        for cb, s, tr, sub, outer in self.deep_sites(b):
+        for cb, s, tr, sub, outer, anchor, sets_fn in self.deep_sites_x(b):
             if sname(s.path) in names and s.self_ty and s.self_ty.endswith("VfsPath") and s.args:
                 gs = [(g[0], sub(g[1])) + tuple(g[2:]) for g in self.guards(cb, s.bb)] + list(outer)
-                out.append((cb, s, tr, sub(tr.operand(s.args[0])), gs))
+                out.append((cb, s, tr, sub(tr.operand(s.args[0])), gs, anchor, sets_fn))
+        return out
+
+    def ok_returns(self, b, depth=2):
+        """[(guards, line, guard sets | None)] for every way `b` can return without an error, in b's name space.  A return that
+        hands on the result of a private overlay helper (`self.mark_removed(path).await` as the tail) is that helper's own
+        successful returns, under the guards of the call"""
+        from .terms import passthrough_of
+        out = []
+        cb0 = self.inter.code_body(b)
+        for ct, _, bb in self.inter.ret_cases(b):
+            pol = self.inter.case_polarity(ct)
+            if pol == "err":
+                continue
+            gs = list(self.guards(cb0, bb))
+            line = cb0.blocks[bb].term.line
+            if pol == "unknown" and depth > 0:
+                pt = passthrough_of(norm(ct))
+                while pt[0] == "await":
+                    pt = pt[1]
+                h = self.inter.body_of_call(pt) if pt[0] == "call" and isinstance(pt[1], str) else None
+                if self.is_private_helper(h) and h.id != b.id:
+                    ids = self.inter.callee_ids(h)
+                    sets0 = self.path_guard_sets(cb0, bb)
+                    for hgs, hline, hsets in self.ok_returns(h, depth - 1):
+                        sg = [self.inter.subst_guard(g, ids, pt[2]) for g in hgs]
+                        ss = None
+                        if sets0 is not None and hsets is not None:
+                            ss = [a + [self.inter.subst_guard(g, ids, pt[2]) for g in hs] for a in sets0 for hs in hsets]
+                            if len(ss) > 600:
+                                ss = None
+                        out.append((sg + gs, line, ss))
+                    continue
+            out.append((gs, line, self.path_guard_sets(cb0, bb)))
         return out
 
     def entries_of(self, h):
